@@ -24,8 +24,10 @@ type c05Replay struct {
 
 // roundMark is a completed persistence round in the trace.
 type roundMark struct {
-	At int // trace index of the marker
-	K  int // prefix exposed by the store after the round
+	At   int         // trace index of the marker
+	Kind string      // round kind / close / reopen / revert
+	Tree *model.Coll // content the store exposed at that moment
+	Hash string
 }
 
 // enumerateImages lists the images to try for one trace.
@@ -94,9 +96,9 @@ func recordTrace(p *eng.Program, scratch string, idx int) (trace []eng.FOp, mark
 	defer eng.DeactivateFS()
 	r := eng.NewRunner(p, eng.Oracles{Store: true}, dir)
 	r.E.FS = fs
-	r.OnRound = func(k int, kind string) {
-		fs.Mark(fmt.Sprintf("round k=%d kind=%s", k, kind))
-		marks = append(marks, roundMark{At: fs.Len() - 1, K: k})
+	r.OnState = func(tree *model.Coll, kind string) {
+		fs.Mark("state after " + kind)
+		marks = append(marks, roundMark{At: fs.Len() - 1, Kind: kind, Tree: tree.Clone(), Hash: tree.Hash()})
 	}
 	res := r.Run()
 	eng.WaitQuiescent(r.E.D.Watchdog)
@@ -132,12 +134,22 @@ func checkImage(cfg eng.Config, world *model.World, uni *eng.Universe, marks []r
 		names = append(names, fmt.Sprintf("%s(%d)", n, len(c)))
 	}
 	sort.Strings(names)
-	kmin := 0
-	for _, m := range marks {
-		if m.At <= img.Point && m.K > kmin {
-			kmin = m.K
+	// The state exposed at the last marker before the crash point, and the
+	// state of the next marker (the round, close or revert in flight): a
+	// crash must leave exactly one of the two.
+	before := &roundMark{Kind: "initial", Tree: model.New(), Hash: model.New().Hash()}
+	var after *roundMark
+	nbefore := 0
+	for i := range marks {
+		if marks[i].At <= img.Point {
+			before = &marks[i]
+			nbefore = i + 1
+		} else {
+			after = &marks[i]
+			break
 		}
 	}
+	kmin := nbefore
 	disc = opKindAt(trace, img) + "/" + img.Kind
 	so := cfg.StoreOptions()
 	so.CollectionOptions = cfg.CollectionOptions()
@@ -162,7 +174,7 @@ func checkImage(cfg eng.Config, world *model.World, uni *eng.Universe, marks []r
 			cl = "open-panicked"
 		case strings.Contains(es, "could not open/parse any file"):
 			cl = "open-failed/no-file-parsable"
-			if kmin == 0 {
+			if kmin == 0 || onlyEmptyBefore(marks, nbefore) {
 				cl = "open-failed/no-file-parsable/before-first-durable-round"
 			}
 		case strings.Contains(es, "EOF"):
@@ -194,20 +206,31 @@ func checkImage(cfg eng.Config, world *model.World, uni *eng.Universe, marks []r
 		}
 		return cl, disc, where + ": " + firstLine(rerr.Error())
 	}
-	ks := world.Prefixes(t.Hash())
-	if len(ks) == 0 {
+	h := t.Hash()
+	var base *model.Coll
+	switch {
+	case h == before.Hash:
+		base = before.Tree
+		sr.Counters["images.state_before"]++
+	case after != nil && h == after.Hash:
+		base = after.Tree
+		sr.Counters["images.state_after"]++
+	default:
 		closeBoth()
-		m := eng.DiffTree(t, world.Ref[kmin], nil)
-		return "not-a-prefix", disc, where + fmt.Sprintf(": reopened content is not a prefix state; vs prefix %d: %v", kmin, m)
-	}
-	k := ks[len(ks)-1]
-	if k < kmin {
-		closeBoth()
-		return "older-than-durable", disc, where + fmt.Sprintf(": reopened prefix %d is older than %d, the prefix of the last persistence round completed before the crash point", k, kmin)
+		older := false
+		for i := 0; i < nbefore-1; i++ {
+			if marks[i].Hash == h {
+				older = true
+			}
+		}
+		if older {
+			return "older-than-durable", disc, where + fmt.Sprintf(": the reopened content is that of an earlier state than the one exposed by the last completed %s before the crash point", before.Kind)
+		}
+		m := eng.DiffTree(t, before.Tree, nil)
+		return "not-a-prefix", disc, where + fmt.Sprintf(": reopened content is neither the state exposed before the crash point (after %s) nor the one after the step in flight; vs the former: %v", before.Kind, m)
 	}
 	sr.Units[disc]++
 	sr.Counters["images.opened"]++
-	sr.Counters[fmt.Sprintf("images.gap%d", min3(k-kmin))]++
 	// usable: one more batch, persisted, reopened
 	extra := &model.Batch{Ops: []model.Op{{Kind: 'S', Key: []byte("after-crash"), Val: []byte(fmt.Sprintf("v%d", img.Point))}}}
 	uerr := eng.Safe(func() error {
@@ -254,7 +277,7 @@ func checkImage(cfg eng.Config, world *model.World, uni *eng.Universe, marks []r
 	if !eng.WaitQuiescent(20e9) {
 		return "inconclusive", disc, "pending goroutines"
 	}
-	want := world.Ref[k].Clone()
+	want := base.Clone()
 	want.Apply(extra, eng.MergeFold)
 	var t2 *model.Coll
 	oerr = eng.Safe(func() error {
@@ -282,6 +305,18 @@ func checkImage(cfg eng.Config, world *model.World, uni *eng.Universe, marks []r
 	eng.WaitQuiescent(20e9)
 	sr.Counters["images.usable"]++
 	return "", disc, ""
+}
+
+// onlyEmptyBefore reports whether every state marked before the crash point
+// was still the empty content (nothing had been made durable yet).
+func onlyEmptyBefore(marks []roundMark, n int) bool {
+	e := model.New().Hash()
+	for i := 0; i < n; i++ {
+		if marks[i].Hash != e {
+			return false
+		}
+	}
+	return true
 }
 
 func min3(x int) int {
@@ -329,6 +364,9 @@ func genC05Program(r *eng.Rng, th bool) *eng.Program {
 		if i == len(p.Steps)/2 && r.Chance(1, 3) {
 			steps = append(steps, eng.Step{K: "reopen", A: "caughtup"})
 		}
+		if s.K == "batch" && i > 2 && r.Chance(1, 8) {
+			steps = append(steps, eng.Step{K: "merge", A: "plain"}, eng.Step{K: "persist"}, eng.Step{K: "revert", N: 1 + r.Intn(3)})
+		}
 	}
 	steps = append(steps, eng.Step{K: "drain"})
 	p.Steps = steps
@@ -370,7 +408,10 @@ func init() {
 			images := enumerateImages(trace, rg, killOnly, perPoint, maxPoints)
 			sr.Counters["traces"]++
 			sr.Counters["trace.ops"] += int64(len(trace))
-			sr.Counters["crash.rounds_marked"] += int64(len(marks))
+			sr.Counters["crash.states_marked"] += int64(len(marks))
+			for _, m := range marks {
+				sr.Counters["crash.marks."+m.Kind]++
+			}
 			if killOnly {
 				sr.Counters["traces.killonly"]++
 			}
@@ -435,7 +476,7 @@ func init() {
 				fmt.Printf("  op %d: %s %s off=%d len=%d n=%d %s %s\n", i, op.Kind, op.Name, op.Off, op.Len, op.N, op.Note, op.Phase)
 			}
 			for _, m := range marks {
-				fmt.Printf("  mark at %d k=%d\n", m.At, m.K)
+				fmt.Printf("  mark at %d %s %s\n", m.At, m.Kind, m.Hash[:8])
 			}
 		}
 		cls, disc, det := checkImage(b.Program.Cfg, world, uni, marks, trace, b.Image, files, filepath.Join(scratch, "img"), sr)
